@@ -68,7 +68,22 @@ JobItems ==
     J("permissions-bad", "none", {}, FALSE),
     J("deprecated-commands", "none", {}, FALSE),
     J("action-inputs", "none", {}, FALSE),
-    J("array-deref-in-job", "array-deref", {}, FALSE) }
+    J("array-deref-in-job", "array-deref", {}, FALSE),
+    \* reusable-workflow (uses:) jobs bearing per-job state: the callbacks of several rules return early for them
+    J("call-with-matrix", "call-matrix", {}, FALSE),
+    J("call-with-needs", "call-needs", {}, FALSE),
+    \* matrices without rows whose include starts with an element evaluating to a context object
+    J("matrix-include-context-inputs", "matrix-include-shared-type", {"call"}, FALSE),
+    J("matrix-include-context-github-event", "matrix-include-shared-type", {}, FALSE),
+    J("matrix-include-context-vars", "matrix-include-shared-type", {}, FALSE),
+    J("matrix-include-expr-then-literal", "matrix-loose", {}, FALSE),
+    J("github-event-deref", "github-event", {}, FALSE),
+    \* jobs without runs-on (VisitJobPre of RuleShellName / RuleRunnerLabel returns early)
+    J("no-runs-on-shells", "platform", {}, FALSE),
+    J("no-runs-on-default-shell", "runner-shell", {"pydefault"}, TRUE),
+    J("labels-multi-ok", "runner-compat", {}, FALSE),
+    J("steps-in-job-env", "steps", {}, FALSE),
+    J("needs-in-matrix", "needs", {}, FALSE) }
 
 StepItems ==
   { J("run", "none", {}, FALSE),
@@ -120,7 +135,7 @@ vars == <<lvl, hdr, subj, preds, pos, place, tc>>
 None == J("", "", {}, FALSE)
 Vector(l, h, s, ps, p, pl) ==
   ToJson([lvl |-> l, hdr |-> h, subj |-> s.n, preds |-> [i \in DOMAIN ps |-> ps[i].n],
-          states |-> [i \in DOMAIN ps |-> ps[i].st], pos |-> p, place |-> pl,
+          states |-> [i \in DOMAIN ps |-> ps[i].st], sstate |-> s.st, pos |-> p, place |-> pl,
           tools |-> s.tool])
 
 HdrsFor(l, s, ps) ==
